@@ -40,6 +40,8 @@ STATUS = {"http_exc": {403}, "exc": {500}, "timeout": {504}, "non_response": {50
 
 def build_request(i: int, r: dict) -> bytes:
     head = f"{r.get('method', 'POST')} /p{i} HTTP/1.1\r\nHost: a\r\nX-Id: {i}\r\n"
+    if r.get("pad"):
+        head += "X-Pad: " + "p" * r["pad"] + "\r\n"
     bk = r.get("body", "none")
     n = r.get("n", 0)
     data = bytes((i + k) & 0x7F | 0x20 for k in range(n))
@@ -223,7 +225,15 @@ def execute(case: dict) -> dict:
 
         out = bytes(peer.received)
         ref_msgs, verdict = refhttp.strict_read(stream)
-        head_idx = tuple(i for i, m in enumerate(ref_msgs) if m.method == "HEAD")
+        # the upgrade offers in these streams are declined by the handler: what follows them is read as further requests
+        all_msgs = list(ref_msgs)
+        v = verdict
+        while v[0] == "upgrade" and v[1]:
+            more, v = refhttp.strict_read(v[1])
+            if not more:
+                break
+            all_msgs.extend(more)
+        head_idx = tuple(i for i, m in enumerate(all_msgs) if m.method == "HEAD")
         resps, problem = refhttp.frame_responses(out, head_request_indexes=head_idx, closed=st_.closing)
         if problem and head_idx:
             # a terminal 400 may take the place of a HEAD request that was parsed in the same read as the garbage after it:
@@ -303,6 +313,8 @@ def execute(case: dict) -> dict:
             r100, _p = refhttp.frame_responses(answered_after_100s, head_request_indexes=head_idx, closed=False)
             answered = len([r for r in r100 if r.complete and r.status >= 200])
             expected_min = n_valid if verdict[0] in ("ok", "incomplete") else None
+            if verdict[0] == "upgrade" and v[0] in ("ok", "incomplete"):
+                expected_min = len(all_msgs)  # declined upgrades: the requests pipelined behind them count too
             if expected_min is not None and answered < expected_min:
                 raise Violation("stuck-open", f"connection still open 100 s after the last byte with {expected_min} complete requests received and only {answered} answered; handled={len(handled)}")
         if loop.exc_contexts:
@@ -383,6 +395,17 @@ def cases(draw, deep: bool = False, with_bad: bool = False):
         case["bad_verdict"] = "reject" if (k >= 0 and verdict[0] == "reject" and not msgs and hv[0] == "reject") else "undecided"
         case["bad_n"] = len(msgs) + 1
     case["burst"] = draw(st.sampled_from([1, 1, 2, 3]))
+    if any(r.get("upgrade") for r in reqs) and draw(st.booleans()):
+        # a small read buffer: what is pipelined behind a (declined) upgrade request pauses reading mid-request
+        case["server_kw"] = {"read_bufsize": draw(st.sampled_from([16, 64, 200]))}
+        for r in reqs:
+            if not r.get("upgrade"):
+                r["pad"] = draw(st.sampled_from([0, 100, 300, 700]))  # a head longer than what fits before reading pauses
+            if r.get("upgrade") and r["h"] in ("ret", "yield"):
+                if draw(st.booleans()):
+                    r["h"], r["t"] = "sleep", 0.5  # everything pipelined behind it arrives while the handler runs
+                else:
+                    r["h"], r["k"] = "yield", draw(st.integers(1, 8))
     if draw(st.integers(0, 3)) == 0:
         case["disconnect_at"] = draw(st.integers(1, 40))
         case["disc_kind"] = draw(st.sampled_from(["close", "reset"]))
